@@ -55,6 +55,8 @@ def run(tier):
     rep.coverage["events_by_kind"] = kinds
     bulk = [e for e in recs if e["ev"] == "RTBulk"]
     rep.coverage["sampled_round_trips"] = {e["site"]: {"n": e["n"], "same": e["same"]} for e in bulk}
+    # sampled round trips that came back the same and the ports of the sweeps are evaluated cases too (not counted as distinct)
+    rep.evals += sum(e["same"] for e in bulk) + sum(e["hi"] - e["lo"] for e in recs if e["ev"] == "RTSweep")
     rep.coverage["port_sweeps"] = [{"site": e["site"], "ip": e["ip"][:-1], "ports": [e["lo"], e["hi"]], "out": e["out"]} for e in recs if e["ev"] == "RTSweep"]
     vacuous = [need for need in ("RT", "RTSweep", "RTBulk", "Variant", "Malformed", "Produce", "Consume", "Interop") if kinds.get(need, 0) == 0]
     rep.sample({"produced": [e for e in recs if e["ev"] == "Produce"][:4]})
